@@ -209,6 +209,19 @@ fn main() {
                 }
             };
             report.count(&format!("outcome_{}", outcome_class(&receipt)));
+            if scripted && std::env::var("VH_DEBUG").is_ok() && outcome_class(&receipt) != "success" {
+                if let TransactionResult::Commit(c) = &receipt.result {
+                    report.notes.push(format!("{} {}: {}", i, tx.label, format!("{:?}", c.outcome).chars().take(500).collect::<String>()));
+                }
+            }
+            if scripted && (outcome_class(&receipt) != "success") != tx.expect_fail {
+                report.count("bf_outcome_not_as_scripted");
+                let why = match &receipt.result {
+                    TransactionResult::Commit(c) => format!("{:?}", c.outcome).chars().take(300).collect::<String>(),
+                    other => format!("{:?}", other).chars().take(300).collect::<String>(),
+                };
+                report.notes.push(format!("boundary step {} ({}) ended as {} (scripted: {}): {}", i, tx.label, outcome_class(&receipt), if tx.expect_fail { "failure" } else { "success" }, why));
+            }
             if !matches!(receipt.result, TransactionResult::Commit(_)) {
                 continue;
             }
